@@ -223,18 +223,21 @@ func (u *ufac) group(parent map[string]any, kidsKey string, depth int, forceB bo
 		}
 	}
 	if len(u.features) > 0 && r.Chance(20) && !forceB && !dupInside {
-		f := pick(r, u.features)
-		use["iff"] = []any{f}
-		for _, k := range moved {
-			kn := k.(map[string]any)
-			if cstr(kn, "k") == "uses" {
-				continue
+		var fl []any
+		for _, f := range u.pickIffs(r) { // one or two if-feature statements: all of them apply
+			fl = append(fl, f)
+			for _, k := range moved {
+				kn := k.(map[string]any)
+				if cstr(kn, "k") == "uses" {
+					continue
+				}
+				u.addIffPlain(cstr(kn, "n"), f)
 			}
-			u.addIffPlain(cstr(kn, "n"), f)
+			for _, k := range moved { // nodes introduced by a nested uses get it as well
+				u.iffThroughUses(k.(map[string]any), f)
+			}
 		}
-		for _, k := range moved { // nodes introduced by a nested uses get it as well
-			u.iffThroughUses(k.(map[string]any), f)
-		}
+		use["iff"] = fl
 	}
 	g := map[string]any{"n": gname, "kids": moved}
 	if inB {
@@ -327,6 +330,20 @@ func (u *ufac) groupingByName(name string) map[string]any {
 		}
 	}
 	return nil
+}
+
+// one if-feature, or (two times in five, when there are two features) two different ones
+func (u *ufac) pickIffs(r *Rng) []string {
+	f := pick(r, u.features)
+	if len(u.features) > 1 && r.Chance(40) {
+		for {
+			g := pick(r, u.features)
+			if g != f {
+				return []string{f, g}
+			}
+		}
+	}
+	return []string{f}
 }
 
 // when a uses that carries an if-feature contains (top-level) another uses, the nodes that one introduces
@@ -488,12 +505,15 @@ func (u *ufac) augment(body []any) {
 		}
 	}
 	if len(u.features) > 0 && r.Chance(20) && !cross && !dupInside {
-		f := pick(r, u.features)
-		a["iff"] = []any{f}
-		for _, k := range taken {
-			pn := findByName(u.plain, cstr(k.(map[string]any), "n"))
-			pn["iff"] = append(carr(pn, "iff"), f)
+		var fl []any
+		for _, f := range u.pickIffs(r) {
+			fl = append(fl, f)
+			for _, k := range taken {
+				pn := findByName(u.plain, cstr(k.(map[string]any), "n"))
+				pn["iff"] = append(carr(pn, "iff"), f)
+			}
 		}
+		a["iff"] = fl
 	}
 	if cross {
 		for _, k := range taken {
